@@ -224,6 +224,8 @@ def shard(ctx, arg):
     rng = ctx.rng("c05", idx)
     for k in range(count):
         m = G.gen_model(rng)
+        if rng.random() < 0.5:
+            G.enrich(rng, m)  # annotations, static values, debug info: more sections, index diffs shift
         if rng.random() < 0.3:
             m.version = rng.choice([b"035", b"037", b"038", b"039"])
         data, w = W.write_dex(m, want_writer=True)
